@@ -8,6 +8,7 @@ import (
 	"sync/atomic"
 
 	"verif/harness"
+	"verif/impl"
 	"verif/model"
 	"verif/univ"
 )
@@ -101,19 +102,26 @@ func checkC16(r *harness.Run) harness.Coverage {
 	}
 	docs = append(docs, map[string]interface{}{"a": bigObjs, "b": bigNums}, bigNums)
 	// literals at the edge of the number range in operand positions
-	var edge []exprCase
-	for _, lit := range []string{"`1e400`", "`-1e400`", "`[1, 2, 1e309]`", "`{\"limit\": 2e308}`", "`1e308`", "`-1e308`", "`9007199254740993`", "`1e-400`"} {
-		for _, ctx := range []string{"%s", "a || %s", "[%s, a]", "{x: %s}", "to_number(%s)", "not_null(a.b, %s)", "%s | @"} {
+	var edgeCases int64
+	for _, lit := range []string{"`1e400`", "`-1e400`", "`[1, 2, 1e309]`", "`{\"limit\": 2e308}`", "`1e308`", "`-1e308`", "`9007199254740993`", "`1e-400`", "`[1e999]`", "`123456789012345678901234567890`"} {
+		for _, ctx := range []string{"%s", "a || %s", "[%s, a]", "{x: %s}", "to_number(%s)", "not_null(a.b, %s)", "%s | @", "%s[0]", "to_string(%s)", "[%s][0]"} {
 			text := strings.Replace(ctx, "%s", lit, -1)
-			if toks, err := model.Lex(text); err == nil {
-				if ast, _, perr := model.Parse(toks); perr == nil {
-					edge = append(edge, exprCase{toks, text, ast})
+			// no reference value is needed: whatever a SUCCESSFUL search returns must be JSON data
+			jp, cerr, pn := impl.Compile(text)
+			if pn != nil || cerr != nil {
+				continue
+			}
+			e := exprCase{text: text}
+			for _, d := range docs[:12] {
+				res, serr, spn := impl.Search(jp, model.Copy(d))
+				edgeCases++
+				if spn == nil && serr == nil {
+					on(0, &e, d, res, nil)
 				}
 			}
 		}
 	}
-	stEdge := conform(r, edge, docs[:20], conformOpts{skipValue: true, onResult: on})
-	_ = stEdge
+	r.Note("edge_literal_cases", edgeCases)
 	for _, part := range []struct {
 		f    *univ.Fragment
 		maxW int
